@@ -16,6 +16,9 @@ CLAIMED = {
  "C10": ("one sync(key) over every combination of pod owner x label match x name shape x terminating and of revision owner x labels x upgrade marker, with a cached set that may be stale w.r.t. the API: adopt/release patches, foreign objects never written or counted, cached objects frozen (engine-level write monitor)", "5/C10"),
  "C11": ("one sync(key) with the pause annotation or a deletion timestamp raised in every explored state (orphans waiting, unhealthy pods, slots): empty write log when paused; no pod/claim write and no adoption when deleting", "5/C11"),
  "C15": ("one sync(key) inside recover() for every spec the CRD admits within the modelled dimensions (unknown policy/strategy strings, rollingUpdate absent / without partition / arbitrary int32 partition, arbitrary history limit, stale status) times small pod populations incl. odd names and nil labels: no panic", "5/C15"),
+ "C06": ("pods built by the real constructors for every ordinal/partition/claim-template shape carry the stable identity and storage of the statement; the real pod control over fake clients with every single failure of claim lookups, claim creates and the pod create, in every claim-map iteration order: claims first, failure blocks the pod, claims never rewritten, a re-created ordinal gets the same claims", "5/C06"),
+ "C08": ("revision bookkeeping (getStatefulSetRevisions, create/update of revisions, collision loop) over stored histories with arbitrary revision numbers, engineered name collisions and collision counts, followed by a reconcile after each kind of non-template edit; codec-dependent clauses are not decided (see level_note)", "5/C08"),
+ "C13": ("sync(key) over revision populations with every owner x label x upgrade-marker combination, arbitrary revision numbers and an arbitrary int32 history limit: every revision delete in the log is justified, oldest first, each revision once", "5/C13"),
 }
 NA = {}
 def main():
